@@ -36,6 +36,18 @@ func checkC13(c *Ctx) {
 	if sc, _ := c.nameExact("NAME-EXACT", c.AllFuncs("tree", "io/newick", "io/nexus", "io/phyloxml", "io/nextstrain", "io/utils", "io/fileutils"), "names are carried over unchanged between the formats"); sc == 0 {
 		c.Undecided("NAME-EXACT", "scan", token.NoPos, "no case-folding call seen in the scanned packages (the Nexus lexer's keyword switch was the instance confirmed by hand)")
 	}
+	c.Decides("READLINE-PREFIX: every bufio ReadLine call of the line readers binds its isPrefix result to a variable that a condition of the enclosing loop reads (a long line that comes back in pieces is one line); UNREAD-RESCAN: the Nexus lexer puts the rune it has read back before handing over to a helper that reads the token again")
+	c.readLinePrefix("READLINE-PREFIX", c.AllFuncs("io/fileutils", "io/utils"), "Every tree of a multi-tree file is delivered in file order ... none is silently skipped")
+	c.Floor("READLINE-PREFIX", 2)
+	c.unreadBeforeRescan("UNREAD-RESCAN", c.Func("io/nexus", "Scanner", "Scan"), "Converting a tree between Newick, Nexus ... and back gives the same tree")
+	c.Floor("UNREAD-RESCAN", 1)
+	c.Decides("FRESH-PER-ITER: the PhyloXML iterator creates the tree it hands to the callback inside its loop over the phylogenies (one object per record)")
+	c.freshPerIter("FRESH-PER-ITER", c.Func("io/phyloxml", "PhyloXML", "IterateTrees"), "Every tree of a multi-tree file is delivered in file order")
+	c.freshPerIter("FRESH-PER-ITER", c.Func("io/nextstrain", "Nextstrain", "IterateTrees"), "Every tree of a multi-tree file is delivered in file order")
+	c.Floor("FRESH-PER-ITER", 1)
+	c.Decides("BLANKS-AGREE: every in-line white-space character of the Newick lexer (isWhitespace minus the line terminators) is a blank for the multi-tree splitter's end-of-tree test, so that `;` followed by blanks ends a tree for the multi-tree reader exactly where the single-tree reader stops")
+	c.blanksAgree("BLANKS-AGREE", c.Func("io/fileutils", "", "ReadUntilSemiColon"), c.Func("io/newick", "", "isWhitespace"), "Every tree of a multi-tree file is delivered in file order ... none is silently skipped")
+	c.Floor("BLANKS-AGREE", 1)
 	if fx := c.Fixture(); fx != nil {
 		sub := c.subCtx(fx)
 		_, nv := sub.nameExact("NAME-EXACT", sub.AllFuncs(), "")
